@@ -3,7 +3,7 @@
 import json, sys
 props = [json.loads(l) for l in open("properties.jsonl")]
 RES_NOTE = ("Trusted: TLC 1.8 and the Json community module; the concretisation/projection maps in harness/drv_resolve.py; "
-            "citations are built with the model classes' constructors (extraction feeding resolution is C05).")
+            "replayed citations are built with the model classes' constructors, extracted lists are abstracted by drv_resolve.abstract_extracted.")
 CHECKS = {
  "C06": dict(engine="resolve", design="4 C06",
    technique="TLA+ model checking of Resolve.tla (TLC) + replay of every graph transition into resolve_citations + TLC trace validation (Trace_Resolve.tla)",
@@ -11,7 +11,7 @@ CHECKS = {
          "alphabets with complete state graphs (lists of any length with <= 3 distinct full citations); one citation list per graph transition "
          "is replayed into the real resolve_citations and the recorded mapping is judged by the C06 monitor clauses of Trace_Resolve.tla in TLC "
          "(disjoint, same objects, input order, head is full, every full once, share-iff-equal, unknown never) and compared step by step with the model. "
-         "Bounded-exhaustive over the abstract alphabet, which is what the property quantifies over."), note=RES_NOTE),
+         "Bounded-exhaustive over the abstract alphabet; in addition the lists EXTRACTED by get_citations from generated citation-dense documents and from every reporters-db example citation next to its neighbours are resolved and judged by the same TLC monitors (abstracted from the real objects)."), note=RES_NOTE),
  "C07": dict(engine="resolve", design="4 C07",
    technique="TLA+ model checking of Resolve.tla (NeverGuess, IdOnlyPredecessor) + transition replay + TLC trace validation",
    text=("Same machinery as C06; the action properties NeverGuess / IdOnlyPredecessor / LastIsOutcome are checked on the model, and the monitor "
@@ -41,7 +41,7 @@ _ann = ("Annotate.tla (one action per iteration of the annotation loop: translat
 CHECKS["C09"] = dict(engine="annotate", design="4 C09", technique="TLA+ model checking of Annotate.tla (invariant Additive at every loop step) + configuration replay + TLC trace validation",
    text=_ann + "C09 clause: the output with the inserted strings removed equals the target text.", note=ANN_NOTE)
 CHECKS["C10"] = dict(engine="annotate", design="4 C10", technique="TLA+ model checking of Annotate.tla/SpanUpdater.tla (ExactEnclosure, Monotone, InRange) + configuration replay + TLC trace validation",
-   text=_ann + "C10 clauses: exact enclosure under forced alignment, annotations in order, translation monotone and in range for arbitrary string pairs.", note=ANN_NOTE)
+   text=_ann + "C10 clauses: exact enclosure under forced alignment (premise stated on the inputs only; both diff engines judged), annotations in order, translation monotone and in range for arbitrary string pairs. Open known finding F21: difflib's non-minimal diff on documents with repeated lines misplaces annotations (reported as KNOWN-FINDING by mechanism signature).", note=ANN_NOTE)
 CHECKS["C11"] = dict(engine="annotate", design="4 C11", technique="TLA+ model checking of Annotate.tla (WellFormedOut, WrapKeepsAll) + replay of all well-formed markups <= 8 tokens + TLC trace validation with lxml's verdict",
    text=_ann + "C11 clauses (premise: source well-formed, plain = its text content): output well-formed per lxml, text content unchanged, wrap keeps every annotation.", note=ANN_NOTE)
 CHECKS["C20"] = dict(engine="clean", design="4 C20", technique="TLA+ model checking of Clean.tla (TLC) + bounded-exhaustive replay through the real cleaners + TLC trace validation",
@@ -58,17 +58,17 @@ CHECKS["C13"] = dict(engine="ahofilter", design="4 C13", technique="regular-lang
          "Counterexample words are confirmed on the real regex and real get_extractors before they count. In addition one shortest accepted word per extractor, generated "
          "documents and random sub-lists are run through AhocorasickTokenizer and the reference Tokenizer and TLC judges matching-subset-selected and stream equality."),
    note="Trusted for passing verdicts: the regex->NFA translation and the AC table construction in harness/regex2nfa.py (validated by witness words in both directions); anchors treated as epsilon.")
-CHECKS["C15"] = dict(engine="purity", design="4 C15", technique="TLA+ model checking of Purity.tla (threads x calls x hash-seed permutation) + replay of every call-level history in fresh processes under different PYTHONHASHSEED + TLC trace validation",
+CHECKS["C15"] = dict(engine="purity", design="4 C15", technique="TLA+ model checking of Purity.tla (threads x calls x hash-seed permutation; TLC emits the step-level schedules) + replay of every call-level history in fresh processes under different PYTHONHASHSEED + deterministic two-thread schedules (sys.settrace scheduler) + TLC trace validation",
    text=("Purity.tla models a process (hash seed = iteration order of a set of extractors), the shared default tokenizer (only mutable shared state: the compiled-pattern cache) "
          "and two threads whose calls are four pre-emptible steps; TLC checks that every completed call returns F(text) for every interleaving and call list (and shows the two "
          "regressions SetOrder / SharedSel violate it). Every call-level history TLC enumerates is replayed with real threads in fresh interpreters under 8 (thorough 32) hash seeds, "
-         "texts bound to a corpus containing every text found with unmerged equal-span candidates; TLC judges each recorded call against the fresh single-threaded baseline."),
-   note="Trusted: TLC + Json; thread interleavings inside a call are free-running (1 us switch interval), not enumerated; editions compared as sets; digest comparison (sha1/64 bit) of serialised results.")
+         "texts bound to a corpus containing every text found with unmerged equal-span candidates; a deterministic scheduler (harness/sched.py: threads parked at the call events of eyecite frames, one pre-emption at every k-th yield point and at the first entry of every function, also as the first calls of a fresh process) forces the interleavings inside a call; TLC judges each recorded call against the fresh single-threaded baseline."),
+   note="Trusted: TLC + Json; interleavings inside a call are enumerated at function-call granularity with one pre-emption (bytecode-level races inside one function are only met by the free-running 1 us switch-interval runs); editions compared as sets; digest comparison (sha1/64 bit) of serialised results.")
 CHECKS["C03"] = dict(engine="filter", design="4 C03", technique="TLA+ model checking of Filter.tla (exact transcription of filter_citations) + list replay + TLC trace validation of get_citations results and merge histories",
    text=("Filter.tla transcribes filter_citations (de-dup by span, stable sort by full span, sweep, final sort by span). TLC checks Sorted, Disjoint, NonRefsKept, Idempotent for every "
          "citation list extraction can produce within bounds (<= 3 non-reference citations with disjoint spans and arbitrary enclosing full spans, <= 2 reference citations inserted "
          "before their full citation or appended). Every emitted list is rebuilt from real citation objects and filtered once and twice; get_citations runs on citation-dense generated "
-         "documents with both merge histories; TLC judges order / uniqueness / non-overlap / non-references kept / idempotence and checks model = code on every one."),
+         "documents with both merge histories; thorough adds `tlc -simulate` walks of a deeper instance (lists of up to 6 citations); TLC judges order / uniqueness / non-overlap / non-references kept / idempotence and checks model = code on every one."),
    note="Trusted: TLC + Json; the list generation constraints state what extraction can produce (they were derived from the code and are what TLC counterexamples are concretised against).")
 CHECKS["C18"] = dict(engine="editions", design="4 C18", technique="TLA+ model checking of Editions.tla (get_year / includes_year / guess_edition) + extraction over every ambiguous reporter string x boundary years x year positions + TLC trace validation",
    text=("Editions.tla transcribes get_year, Edition.includes_year, guess_edition and the ambiguity filter; TLC checks YearSound and GuessSound for every candidate configuration "
@@ -90,10 +90,10 @@ _ext = ("Extract.tla models the offset arithmetic of the extractors (extract_pin
         "add_pre_citation, short-form antecedents, match_on_tokens windows) over abstract token lists with NONDETERMINISTIC regex results; TLC checks SpanLaws for every word list of <= 4 (5) tokens, "
         "every citation position and form and every matcher result the window admits (and finds the two original arithmetic defects when the fix flags are off). "
         "Citation-dense generated documents (all fragment pairs x separators, seeded longer and hostile documents, character mutations), in plain and markup mode, through the three tokenizers, "
-        "are judged by TLC monitors on the returned citations: ")
-CHECKS["C02"] = dict(engine="extract", design="4 C02", technique="TLA+ model checking of Extract.tla (offset arithmetic with nondeterministic matchers) + TLC-judged monitors on citations returned for generated documents",
+        "are judged by TLC monitors on the returned citations; and Extract.tla is BOUND to the code step by step: the guarded hook logs every match_on_tokens window and result, Trace_ExtractSteps.tla recomputes every span of every returned citation (short / supra / id / full / law / journal) and every window length with Extract.tla's operators from the logged matcher results and the public token list and must equal what the library returned (selftest/binding_demo.py shows corrupted recordings are rejected). Monitors: ")
+CHECKS["C02"] = dict(engine="extract", design="4 C02", technique="TLA+ model checking of Extract.tla (offset arithmetic with nondeterministic matchers) + step-level trace validation of hook-recorded matcher events against Extract.tla (Trace_ExtractSteps.tla) + TLC-judged monitors on citations returned for generated documents",
    text=_ext + "0 <= full start <= start <= end <= full end <= len; the slice at the span starts with the whole matched text; the pin-cite span contains the span and the pin-cite text.", note=EXT_NOTE)
-CHECKS["C17"] = dict(engine="extract", design="4 C17", technique="TLC-judged witness monitor (every textual metadata value occurs inside the citation's own or joint extent) on generated documents + Extract.tla",
+CHECKS["C17"] = dict(engine="extract", design="4 C17", technique="TLC-judged witness monitor (every textual metadata value occurs inside the citation's own or joint extent) on generated documents + Extract.tla model checking and step-level trace validation (Trace_ExtractSteps.tla)",
    text=_ext + "every textual metadata value (pin cite, year, parties, antecedent, extra, publisher, month, day, supra volume, full-citation parenthetical) is a slice of the text inside the citation's full span "
               "or the joint extent of the citations that start at the same place.", note=EXT_NOTE)
 CHECKS["C04"] = dict(engine="eyecite", design="4 C04", technique="TLC trace validation of recorded whole sessions against Eyecite.tla (no action for a raised call) + NoRaise invariants of the component models",
@@ -105,7 +105,7 @@ CHECKS["C04"] = dict(engine="eyecite", design="4 C04", technique="TLC trace vali
 CHECKS["C14"] = dict(engine="hyperscan", design="4 C14", technique="TLA+ model checking of HsOffsets.tla (byte/character offsets) and HsCache.tla (cache life cycle with crashes and corruptions) + replay on real cache directories + TLC-judged candidate comparison",
    text=("HsOffsets.tla models byte-level matching with start-of-match, the widening of hits to whole characters, the byte->character offset table and the re-match; TLC checks for every text of <= 5 characters "
          "(core / alphanumeric / punctuation / 2- and 3-byte characters) that no reference candidate is lost and every candidate is genuine. HsCache.tla models construction as separate steps (exists, load, scratch, "
-         "compile, non-atomic write) with crashes between write begin and end and eight corruption classes; TLC checks it never raises and only takes a database from an intact file; every behaviour is replayed on a real "
+         "compile, non-atomic write) with crashes between write begin and end, eight corruption classes and a file written by a tokenizer with a different extractor list (Foreign); TLC checks it never raises and only takes a database from an intact file; every behaviour is replayed on a real "
          "cache directory and hyperscan.loadb's reaction to each fault class is compared with the model's environment assumption. Generated legal text with multi-byte characters before / after / between / inside "
          "citations is run through both tokenizers and TLC judges subset, genuineness of extra candidates and agreement of get_citations."),
    note="Trusted: TLC + Json; the domain guard of C14 (no non-ASCII whitespace / digits / case variants) holds by construction of the texts; 'genuine' witnesses are computed by re-matching on the full text; cache replay uses a 45-extractor list.")
@@ -126,7 +126,7 @@ CHECKS["C01"] = dict(engine="forms", design="4 C01", technique="TLA+ grammar spe
          "for the six forms, the domain rules of the property, and Expected(shape): which slots the span covers, where every component is written, where the full span starts and ends. TLC enumerates all ~9,200 valid shapes "
          "and checks the ground truth is internally consistent. Every shape is concretised (reporter strings, courts from courts-db, names, numbers) and every plain-template reporter string of reporters-db (~2,900 edition names "
          "and variations) is run through the minimal 'vol R page' and 'vol R at page' forms; TLC compares the projected result of get_citations with the concrete expectation: count, kind, exact span, groups, pin cite, year, court, "
-         "defendant, plaintiff suffix, antecedent, parenthetical, full-span start and end (adjacent whitespace tolerance), written reporter among the candidate editions unless a second pattern matches the same characters."),
+         "defendant, plaintiff suffix, antecedent, parenthetical, full-span start and end (adjacent whitespace tolerance), written reporter among the candidate editions unless a second pattern matches the same characters. Also concretised: every court of courts-db whose citation string the year-parenthetical grammar admits, every journal and law reporter string and every law example citation of reporters-db, punctuated and multi-word party names, a lead longer than the matcher window. Open known finding F22: an antecedent guess is cut at an apostrophe / inner capital (KNOWN-FINDING by mechanism signature)."),
    note="Trusted: TLC + Json; concretisation in harness/forms.py; editions with custom templates, variations ending in ',' or ' at' are excluded (counted); for short / supra / id. forms the full-span end is judged as 'reaches the span end, at most the closing parenthesis'.")
 NA_REASON = "check not built yet (work in progress; see DESIGN.md section 10 build order)"
 checks = []
@@ -142,9 +142,9 @@ for p in props:
       "level_note": c["note"], "technique": c["technique"]})
 m = {"version": 1,
  "setup_cmd": "./setup.sh",
- "hooks": {"guard": "EYECITE_VERIF", "enable": "EYECITE_VERIF=1 in the environment of the /venv/bin/python processes that import eyecite from /repo (python: nothing to build; each check starts fresh interpreters on /repo's working tree)",
+ "hooks": {"guard": "EYECITE_VERIF", "enable": "EYECITE_VERIF=1 in the environment of the /venv/bin/python processes that import eyecite from /repo (python: nothing to build; each check starts fresh interpreters on /repo's working tree; harness/vlib.py sets it). With the guard on, eyecite/_verif.py buffers one event per helpers.match_on_tokens call (window, match span, group spans); only the step-level conformance layer of C02/C17 (Trace_ExtractSteps.tla) reads them, every other check observes the public API only",
            "baseline_off_cmd": "cd /repo && /venv/bin/python -m pytest -ra -q -p no:cacheprovider --timeout=900 --continue-on-collection-errors",
-           "source_commits": [], "add_only": True},
+           "source_commits": ["1dbaf419783e7d32b0b3dd56df357ba6ce7e4931", "224c6d48a12559d46741fa2c5248ecc0ad128192"], "add_only": True},
  "engines": [{"name": "resolve", "path": "spec/Resolve.tla spec/MC_Resolve.tla spec/Trace_Resolve.tla harness/chk_resolve.py harness/drv_resolve.py",
               "serves_properties": ["C06", "C07", "C08"], "kind_free_text": "TLA+ spec, TLC model checking, transition replay, TLC trace validation"},
              {"name": "tokenize", "path": "spec/Tokenize.tla spec/MC_Tokenize.tla spec/Trace_Tokenize.tla harness/chk_tokenize.py harness/drv_tokenize.py harness/gendocs.py",
@@ -153,7 +153,7 @@ m = {"version": 1,
               "serves_properties": ["C20"], "kind_free_text": "TLA+ spec, TLC model checking, exhaustive replay, TLC trace validation"},
              {"name": "ahofilter", "path": "spec/RegexIncl.tla spec/Trace_AhoFilter.tla harness/regex2nfa.py harness/chk_aho.py harness/drv_aho.py",
               "serves_properties": ["C13"], "kind_free_text": "regex->NFA translation, TLC product reachability, TLC-judged differential traces"},
-             {"name": "purity", "path": "spec/Purity.tla spec/MC_Purity.tla spec/Trace_Purity.tla harness/chk_purity.py harness/drv_purity.py",
+             {"name": "purity", "path": "spec/Purity.tla spec/MC_Purity.tla spec/Trace_Purity.tla harness/chk_purity.py harness/drv_purity.py harness/sched.py",
               "serves_properties": ["C15"], "kind_free_text": "TLA+ spec, TLC model checking, history replay across processes / hash seeds / threads, TLC trace validation"},
              {"name": "filter", "path": "spec/Filter.tla spec/MC_Filter.tla spec/Trace_Filter.tla harness/chk_filter.py harness/drv_extract.py harness/gendocs.py",
               "serves_properties": ["C03"], "kind_free_text": "TLA+ spec, TLC model checking, list replay, TLC trace validation"},
@@ -161,7 +161,7 @@ m = {"version": 1,
               "serves_properties": ["C18"], "kind_free_text": "TLA+ spec, TLC model checking, database-exhaustive extraction, TLC trace validation"},
              {"name": "equality", "path": "spec/Equality.tla spec/MC_Equality.tla spec/Trace_Equality.tla harness/chk_equality.py harness/drv_extract.py",
               "serves_properties": ["C16"], "kind_free_text": "TLA+ spec, TLC model checking, database-exhaustive comparison groups, TLC trace validation"},
-             {"name": "extract", "path": "spec/Extract.tla spec/MC_Extract.tla spec/Trace_Extract.tla harness/chk_extract.py harness/drv_extract.py harness/gendocs.py",
+             {"name": "extract", "path": "spec/Extract.tla spec/MC_Extract.tla spec/Trace_Extract.tla spec/Trace_ExtractSteps.tla harness/chk_extract.py harness/drv_extract.py harness/gendocs.py",
               "serves_properties": ["C02", "C17"], "kind_free_text": "TLA+ spec of the offset arithmetic, TLC model checking, TLC-judged monitors on real extraction results"},
              {"name": "eyecite", "path": "spec/Eyecite.tla spec/Trace_Eyecite.tla harness/chk_pipeline.py harness/drv_extract.py harness/gendocs.py",
               "serves_properties": ["C04"], "kind_free_text": "session composition spec, TLC model checking, TLC trace validation of recorded sessions"},
